@@ -869,3 +869,603 @@ def _iter_facts(self, fn, base_facts, out):
 
 Engine.iter_origin = _iter_origin
 Engine.iter_facts = _iter_facts
+
+
+# ======================================================================================
+# verdicts
+# ======================================================================================
+RANK = {"const": 0, "param": 1, "cursor": 1, "callret": 2, "data": 5, "extern": 6, "unknown": 7, "nonlinear": 5}
+
+
+def _atom_class(self, fn, a, seen=None):
+    """classify an atom: const | param | cursor | data | extern | unknown | nonlinear
+       cursor = loop phi / value left behind by an analysed in-crate helper, built from understood parts"""
+    an = self.an(fn)
+    if seen is None:
+        seen = set()
+    if a in seen:
+        return "const"
+    seen = seen | {a}
+    t = a[0]
+    if t == "const":
+        return "const"
+    if t == "param":
+        return "param"
+    if t == "len":
+        c = self.atom_class(fn, a[1], seen)
+        return c
+    if t in ("unsize", "ptrcast", "slice", "slicefrom", "sliceto", "byref"):
+        cs = [self.atom_class(fn, x, seen) for x in a[1:] if isinstance(x, tuple)]
+        return max(cs, key=lambda c: RANK[c]) if cs else "const"
+    if t == "init":
+        L = a[1]
+        while L[0] in ("field", "index", "downcast", "cidx", "subslice"):
+            L = L[1]
+        if L[0] == "deref":
+            return self.atom_class(fn, L[1], seen)
+        return "unknown"
+    if t == "phi":
+        worst = "const"
+        for e in an.cfg.in_edges[a[1]]:
+            st = an.out_state.get(e.src)
+            if st is None:
+                continue
+            v = an.read(st, a[2])
+            for x in self.prover(fn).lin(v)[1]:
+                c = self.atom_class(fn, x[0], seen)
+                if RANK[c] > RANK[worst]:
+                    worst = c
+        return "cursor" if RANK[worst] <= 1 else worst
+    if t == "clob":
+        site = a[1]
+        if site[0] == fn.path:
+            info = an.term.get(site[1])
+            if info and self.is_local(info["callee"]):
+                return "cursor"
+        return "extern"
+    if t == "bin":
+        cs = [self.atom_class(fn, a[2], seen), self.atom_class(fn, a[3], seen)]
+        w = max(cs, key=lambda c: RANK[c])
+        return w if RANK[w] >= 5 else "nonlinear"
+    if t == "cast":
+        return self.atom_class(fn, a[3], seen)
+    if t == "call":
+        if self.is_local(a[1]):
+            return "callret"
+        return "extern"
+    if t == "proj":
+        x = a
+        while x[0] == "proj":
+            x = x[1]
+        if x[0] == "try":
+            x = x[1]
+        if x[0] == "call" and self.is_local(x[1]):
+            # component of the result of an analysed in-crate call: understood only if the
+            # callee's proved postconditions say something about that component
+            path = []
+            y = a
+            while y[0] == "proj":
+                path.append(y[2])
+                y = y[1]
+            path.reverse()
+            if y[0] == "try" and path[:2] == [("dc", 0), ("f", 0)]:
+                path = path[2:]
+            elif path[:1] == [("dc", 0)] or path[:1] == [("dc", 1)]:
+                path = path[2:] if len(path) >= 2 else path
+            summ = self.summary(self.F.fns[x[1]])
+            for l in summ.get("ok", []):
+                for at in lin_atoms(l):
+                    if at[0] == "RV" and tuple(at[1]) == tuple(path):
+                        return "callret"
+            return "data"
+        return "data"
+    if t in ("elem", "try", "discr", "agg", "elemfe", "subslice", "aload"):
+        return "data"
+    if t in ("static", "bytes", "promoted", "kconst", "fn"):
+        return "const"
+    return "unknown"
+
+
+def _site_unconditional(self, fn, block):
+    """the block runs whenever the function is entered and the preceding calls succeed"""
+    P = self.prover(fn)
+    for f in P.facts_at(block):
+        if f[0] in ("variant", "notvariant"):
+            V = f[1]
+            if V[0] == "try" or V[0] == "call":
+                continue
+            return False
+        return False
+    return True
+
+
+def _raw_elem_of_param(self, fn, a):
+    """a is (a widening of) an element of a parameter-rooted slice: arbitrary input data"""
+    while a[0] == "cast":
+        a = a[3]
+    if a[0] != "elem":
+        return False
+    base = a[1]
+    for _ in range(8):
+        if base[0] in ("slice", "slicefrom", "sliceto", "unsize", "ptrcast"):
+            base = base[1]
+        elif base[0] == "call" and base[1].endswith("::as_bytes") and base[2]:
+            base = base[2][0]
+        else:
+            break
+    return base[0] == "param"
+
+
+def _decide(self, fn, ob, scope=None):
+    if ob.rule == "G-GUARD":
+        return self.decide_guard(fn, ob, scope)
+    if ob.rule == "G-NOWRAP":
+        return self.decide_nowrap(fn, ob, scope)
+    if ob.rule == "G-NARROW":
+        return self.decide_narrow(fn, ob, scope)
+    if ob.rule == "G-SHIFT":
+        return self.decide_shift(fn, ob, scope)
+    if ob.rule == "G-PANIC":
+        return self.decide_panic(fn, ob, scope)
+    ob.verdict, ob.why = UNDECIDED, "no decision procedure"
+    return ob
+
+
+def _open_goals(self, fn, ob):
+    P = self.prover(fn)
+    facts = self.facts(fn, ob.block)
+    out = []
+    for g, text in ob.goals:
+        if P.prove_le0(g, facts):
+            continue
+        if self.prove_inductive(fn, g, ob.block, facts):
+            continue
+        out.append((g, text))
+    return out
+
+
+def _classify_open(self, fn, ob, open_goals):
+    """worst atom class over the open goals, and the atoms"""
+    worst = "const"
+    atoms = set()
+    for g, _ in open_goals:
+        for a in lin_atoms(g):
+            atoms.add(a)
+            c = self.atom_class(fn, a)
+            if RANK[c] > RANK[worst]:
+                worst = c
+    return worst, atoms
+
+
+def _decide_guard(self, fn, ob, scope):
+    og = self.open_goals(fn, ob)
+    if not og:
+        ob.verdict, ob.why = PROVED, "guarded: " + "; ".join(t for _, t in ob.goals)
+        return ob
+    an = self.an(fn)
+    P = self.prover(fn)
+    # constant table indexed by a widened narrow integer taken from raw input
+    if ob.kind == "index":
+        idx, ln = ob.extra["index"], ob.extra["len"]
+        if ln[0] == "const":
+            l = P.lin(idx)
+            if len(l[1]) == 1 and l[1][0][1] == 1 and l[0] == 0:
+                a = l[1][0][0]
+                lo, hi = P.interval(a, self.facts(fn, ob.block))
+                if hi >= ln[1] and self.raw_elem_of_param(fn, a) and hi < INF:
+                    ob.verdict = VIOLATION
+                    ob.why = "table of %d entries indexed by raw input byte (range 0..%d) with no bound check" % (ln[1], hi)
+                    return ob
+    worst, atoms = self.classify_open(fn, ob, og)
+    has_param = any(self.atom_class(fn, a) == "param" and not (a[0] == "len") for a in atoms)
+    what = "; ".join(t for _, t in og)
+    if RANK[worst] >= 5:
+        ob.verdict = UNDECIDED
+        ob.why = "not proved (%s); operand class %s (stored data / callee result / external)" % (what, worst)
+        return ob
+    if has_param:
+        if self.site_unconditional(fn, ob.block):
+            ob.verdict = UNDECIDED
+            ob.why = "precondition on caller: " + what
+            ob.extra["precond"] = og
+            return ob
+        ob.verdict, ob.why = UNDECIDED, "parameter-dependent and conditional: " + what
+        return ob
+    # a dominating guard that mentions the same length together with something the engine cannot
+    # evaluate (a callee result, stored data) may be exactly the missing bound: do not alarm
+    lens = {a for a in atoms if a[0] == "len"}
+    for f in self.facts(fn, ob.block):
+        if f[0] != "le":
+            continue
+        fa = lin_atoms(f[1])
+        if fa & lens:
+            for a in fa:
+                if RANK[self.atom_class(fn, a)] >= 5:
+                    ob.verdict = UNDECIDED
+                    ob.why = "a guard on the same length involves %s, which is not evaluated: %s" % (
+                        self.stable(a, fn)[:60], what)
+                    return ob
+    ob.verdict = VIOLATION
+    ob.why = "no guard establishes %s on every path (operands: cursor/constants only)" % what
+    return ob
+
+
+def _retlin(self, cf):
+    """return value of an in-crate integer function as a linear form over its entry placeholders"""
+    if cf.path in self._retlin:
+        return self._retlin[cf.path]
+    self._retlin[cf.path] = None
+    if cf.output is None or cf.output["t"]["k"] not in ("uint", "int"):
+        return None
+    an = self.an(cf)
+    P = self.prover(cf)
+    vals = set()
+    for b, info in an.term.items():
+        if info["kind"] == "return":
+            vals.add(info["value"])
+    if len(vals) != 1:
+        return None
+    v = vals.pop()
+    l = P.lin(v)
+    tr = []
+    for a, k in l[1]:
+        ph = _entry_atom_to_placeholder(a)
+        if ph is None:
+            ph = _param_tree_placeholder(a)
+        if ph is None:
+            return None
+        tr.append((ph, k))
+    res = (l[0], tuple(tr))
+    self._retlin[cf.path] = res
+    return res
+
+
+def _param_tree_placeholder(a):
+    """an atom that is a pure function of parameters only: ("PT", atom)"""
+    ok = [True]
+
+    def f(x):
+        if x[0] in ("phi", "clob", "init", "elem", "proj", "try", "icall", "unknown"):
+            ok[0] = False
+        if x[0] == "call" and x[3] is not None:
+            ok[0] = False
+    walk(a, f)
+    return ("PT", a) if ok[0] else None
+
+
+def _subst_params(v, args):
+    if not isinstance(v, tuple) or not v:
+        return v
+    if v[0] == "param":
+        return args[v[1] - 1] if v[1] - 1 < len(args) else v
+    return tuple(_subst_params(x, args) if isinstance(x, tuple) else x for x in v)
+
+
+Engine.retlin = _retlin
+Engine.atom_class = _atom_class
+Engine.site_unconditional = _site_unconditional
+Engine.raw_elem_of_param = _raw_elem_of_param
+Engine.decide = _decide
+Engine.open_goals = _open_goals
+Engine.classify_open = _classify_open
+Engine.decide_guard = _decide_guard
+
+
+# ======================================================================================
+# G-NOWRAP / G-NARROW / G-SHIFT / G-PANIC
+# ======================================================================================
+def _type_max(tk):
+    if tk is None:
+        return None
+    b = tk.get("bits")
+    if tk["k"] == "uint":
+        return (1 << (64 if b == -1 else b)) - 1
+    if tk["k"] == "int":
+        return (1 << ((64 if b == -1 else b) - 1)) - 1
+    return None
+
+
+def _is_usize(tk):
+    return tk is not None and tk["k"] == "uint" and tk.get("bits") == -1
+
+
+def _loop_carried(self, fn, ob):
+    """is the arithmetic result fed back into one of its own operands around a loop?
+       returns the loop header or None"""
+    an = self.an(fn)
+    a, b, op = ob.extra["a"], ob.extra["b"], ob.extra["op"]
+    me = ("bin", op, a, b)
+    phis = set()
+
+    def f(x):
+        if x[0] == "phi":
+            phis.add(x)
+    walk(a, f)
+    walk(b, f)
+    loops = an.cfg.natural_loops()
+    for ph in phis:
+        H = ph[1]
+        if H not in loops:
+            continue
+        for e in an.cfg.in_edges[H]:
+            if e.src not in loops[H]:
+                continue
+            st = an.out_state.get(e.src)
+            if st is None:
+                continue
+            v = an.read(st, ph[2])
+            hit = []
+
+            def g(x):
+                if x == me:
+                    hit.append(1)
+            walk(v, g)
+            # the back-edge value may itself be a join phi of several updates
+            if not hit and v[0] == "phi":
+                for e2 in an.cfg.in_edges[v[1]]:
+                    st2 = an.out_state.get(e2.src)
+                    if st2 is not None:
+                        walk(an.read(st2, v[2]), g)
+            if hit:
+                return H
+    return None
+
+
+def _loop_bounded(self, fn, H):
+    """is the loop at header H driven by a range iterator with constant bounds?"""
+    an = self.an(fn)
+    loops = an.cfg.natural_loops()
+    body = loops.get(H, set())
+    for b in body:
+        info = an.term.get(b)
+        if info and info["kind"] == "call" and (info["base"] or "").endswith("Iterator::next"):
+            o = self.iter_origin(fn, info["pre"][0])
+            if o and o != "same" and o[0] in ("incl", "excl") and o[2][0] == "const":
+                return True
+    return False
+
+
+def _decide_nowrap(self, fn, ob, scope):
+    an = self.an(fn)
+    P = self.prover(fn)
+    op = ob.extra.get("op")
+    a, b = ob.extra.get("a"), ob.extra.get("b")
+    tk = ob.extra.get("tk") or an.vtype.get(a)
+    facts = self.facts(fn, ob.block)
+    if op in ("Add", "Mul"):
+        mx = _type_max(tk)
+        if op == "Add":
+            l = lin_add(P.lin(a), P.lin(b))
+        else:
+            l = P.lin(("bin", "Mul", a, b))
+        if mx is not None:
+            g = lin_add(l, lin_const(mx), -1)
+            if P.prove_le0(g, facts) or self.prove_inductive(fn, g, ob.block, facts):
+                ob.verdict, ob.why = PROVED, "result bounded by the type maximum"
+                return ob
+        if _is_usize(tk):
+            ob.verdict, ob.why = PROVED, "usize size/cursor arithmetic (assumption A1)"
+            ob.extra["assumed"] = "A1"
+            return ob
+        H = self.loop_carried(fn, ob)
+        if H is not None:
+            if self.loop_bounded(fn, H):
+                ob.verdict, ob.why = UNDECIDED, "accumulator in a loop with constant trip count; bound not derived"
+                return ob
+            ob.verdict = VIOLATION
+            ob.why = ("raw %s on a fixed-width accumulator whose trip count the input controls: "
+                      "panics with overflow checks, wraps without" % op)
+            return ob
+        ob.verdict, ob.why = UNDECIDED, "not loop-carried; no bound derived"
+        return ob
+    if op == "Sub":
+        signed = tk is not None and tk["k"] == "int"
+        if signed:
+            ob.verdict, ob.why = UNDECIDED, "signed subtraction"
+            return ob
+        g = lin_add(P.lin(b), P.lin(a), -1)
+        if P.prove_le0(g, facts) or self.prove_inductive(fn, g, ob.block, facts):
+            ob.verdict, ob.why = PROVED, "order fact b <= a holds"
+            return ob
+        if a[0] == "const" or b[0] == "const":
+            ob.verdict, ob.why = UNDECIDED, "subtraction involving a constant without a recognised fact"
+            return ob
+        worst = "const"
+        atoms = lin_atoms(g)
+        for x in atoms:
+            c = self.atom_class(fn, x)
+            if RANK[c] > RANK[worst]:
+                worst = c
+        if RANK[worst] >= 5:
+            ob.verdict, ob.why = UNDECIDED, "operands of class %s" % worst
+            return ob
+        if any(self.atom_class(fn, x) == "param" for x in atoms):
+            ob.verdict, ob.why = UNDECIDED, "precondition on caller: b <= a"
+            if self.site_unconditional(fn, ob.block):
+                ob.extra["precond"] = [(g, "b <= a")]
+            return ob
+        ob.verdict = VIOLATION
+        ob.why = "unsigned subtraction of two non-constant values with no dominating order fact"
+        return ob
+    ob.verdict, ob.why = UNDECIDED, "operator %s" % op
+    return ob
+
+
+def _flows_to_layout(self, fn, ob):
+    """does the truncated value reach a byte-encoding call, a store into a buffer, or the return value?"""
+    an = self.an(fn)
+    v = ob.extra["value"]
+    why = []
+
+    def has(x):
+        hit = []
+
+        def g(y):
+            if y == v:
+                hit.append(1)
+        walk(x, g)
+        return bool(hit)
+
+    for b, info in an.term.items():
+        if info["kind"] == "call":
+            name = (info["base"] or "").rsplit("::", 1)[-1]
+            if any(has(a) for a in info["args"]):
+                if name in ("to_ne_bytes", "to_be_bytes", "to_le_bytes"):
+                    why.append(name)
+                elif self.is_local(info["callee"]) or name in ("from", "into", "from_u16", "push", "extend"):
+                    why.append("passed to " + name)
+        elif info["kind"] == "return":
+            if has(info["value"]):
+                why.append("returned")
+    for (b, i), val in an.stmt_val.items():
+        L = an.stmt_loc.get((b, i))
+        if L is not None and L[0] in ("index", "field", "deref") and has(val):
+            why.append("stored")
+    return why
+
+
+def _decide_narrow(self, fn, ob, scope):
+    if not ob.goals:
+        ob.verdict, ob.why = UNDECIDED, "float to int (saturating)"
+        return ob
+    og = self.open_goals(fn, ob)
+    if not og:
+        ob.verdict, ob.why = PROVED, "source bounded by the target type's maximum"
+        return ob
+    flows = self.flows_to_layout(fn, ob)
+    if not flows:
+        ob.verdict, ob.why = PROVED, "truncated value feeds no layout write or result (comparison only)"
+        return ob
+    worst, atoms = self.classify_open(fn, ob, og)
+    if worst in ("extern", "unknown") or any(a[0] in ("elem", "proj") and not self.raw_elem_of_param(fn, a) for a in atoms
+                                              if not (a[0] == "proj" and self._proj_of_local_call(a))):
+        ob.verdict, ob.why = UNDECIDED, "source of class %s" % worst
+        return ob
+    ob.verdict = VIOLATION
+    ob.why = "narrowing cast %s with no dominating range check; value is %s" % (ob.kind, ", ".join(sorted(set(flows))))
+    return ob
+
+
+def _proj_of_local_call(self, a):
+    """projection of the result of an analysed in-crate call (e.g. the Ok payload of json_unescape)"""
+    x = a
+    while x[0] == "proj":
+        x = x[1]
+    if x[0] == "try":
+        x = x[1]
+    return x[0] == "call" and self.is_local(x[1])
+
+
+def _decide_shift(self, fn, ob, scope):
+    og = self.open_goals(fn, ob)
+    if not og:
+        ob.verdict, ob.why = PROVED, "shift amount below the bit width"
+        return ob
+    P = self.prover(fn)
+    amt = ob.extra["b"]
+    l = P.lin(amt)
+    if len(l[1]) == 1 and l[1][0][1] == 1 and l[0] == 0:
+        a = l[1][0][0]
+        lo, hi = P.interval(a, self.facts(fn, ob.block))
+        if hi >= ob.extra["bits"] and hi < INF and self._rooted_in_param(a):
+            ob.verdict = VIOLATION
+            ob.why = ("shift amount is a %d..%d value read from the object's own bytes with no bound check "
+                      "(>= %d panics with overflow checks, is masked without)" % (max(lo, 0), hi, ob.extra["bits"]))
+            return ob
+    ob.verdict, ob.why = UNDECIDED, "shift amount not bounded"
+    return ob
+
+
+def _rooted_in_param(self, a):
+    while a[0] == "cast":
+        a = a[3]
+    if a[0] != "elem":
+        return False
+    base = a[1]
+    for _ in range(10):
+        if base[0] in ("slice", "slicefrom", "sliceto", "unsize", "ptrcast"):
+            base = base[1]
+        elif base[0] == "init":
+            L = base[1]
+            while L[0] in ("field", "index", "downcast"):
+                L = L[1]
+            if L[0] == "deref":
+                base = L[1]
+            else:
+                return False
+        else:
+            break
+    return base[0] == "param"
+
+
+def _decide_panic(self, fn, ob, scope):
+    an = self.an(fn)
+    P = self.prover(fn)
+    facts = self.facts(fn, ob.block)
+    info = ob.extra["info"]
+    kind = ob.kind
+    if P.infeasible(facts):
+        ob.verdict, ob.why = PROVED, "unreachable: the guarding condition contradicts dominating facts"
+        return ob
+    if kind in ("unwrap", "expect"):
+        recv = info["args"][0]
+        # Some/Ok established by a fact or by construction
+        for f in facts:
+            if f[0] == "variant" and f[1] == recv:
+                ok_variant = 1 if "option" in (info["base"] or "") else 0
+                if f[2] == ok_variant:
+                    ob.verdict, ob.why = PROVED, "variant established on every path"
+                    return ob
+        if recv[0] == "call" and recv[1].endswith(("::try_into", "::try_from")) and recv[2]:
+            src = recv[2][0]
+            ln = an.len_of(src)
+            l = P.lin(ln)
+            dst_tk = an.vtype.get(recv)
+            n = None
+            if dst_tk is not None and dst_tk["k"] == "adt" and dst_tk["args"]:
+                t0 = dst_tk["args"][0]
+                if t0["k"] == "array":
+                    n = t0["n"]
+            if n is not None and not l[1] and l[0] == n:
+                ob.verdict, ob.why = PROVED, "slice of constant width %d converted to [u8; %d]" % (n, n)
+                return ob
+        ob.verdict, ob.why = UNDECIDED, "receiver variant not established"
+        return ob
+    if kind == "copy_from_slice":
+        dst, src = info["args"][0], info["args"][1]
+        ld, ls = P.lin(an.len_of(dst)), P.lin(an.len_of(src))
+        d = lin_add(ld, ls, -1)
+        if not d[1] and d[0] == 0:
+            ob.verdict, ob.why = PROVED, "lengths are equal by construction"
+            return ob
+        if P.prove_le0(d, facts) and P.prove_le0(lin_scale(d, -1), facts):
+            ob.verdict, ob.why = PROVED, "lengths proved equal"
+            return ob
+        ob.verdict, ob.why = UNDECIDED, "length equality not derived"
+        return ob
+    if kind.startswith("panic:"):
+        last = kind.split(":", 1)[1]
+        msg = ob.desc
+        if last in ("panic_fmt", "panic_display", "panic_explicit", "begin_panic", "panic_str") or \
+                (last == "panic" and not msg.startswith(("assertion", "internal error", "attempt to", "called `"))):
+            if "internal error: entered unreachable" in msg or msg.startswith("assertion"):
+                ob.verdict, ob.why = UNDECIDED, "assertion / unreachable marker"
+                return ob
+            ob.verdict = VIOLATION
+            ob.why = "explicit panic on a condition that no dominating fact refutes"
+            return ob
+        ob.verdict, ob.why = UNDECIDED, "assertion whose condition is not refuted"
+        return ob
+    ob.verdict, ob.why = UNDECIDED, kind
+    return ob
+
+
+Engine.loop_carried = _loop_carried
+Engine.loop_bounded = _loop_bounded
+Engine.decide_nowrap = _decide_nowrap
+Engine.flows_to_layout = _flows_to_layout
+Engine.decide_narrow = _decide_narrow
+Engine._proj_of_local_call = _proj_of_local_call
+Engine.decide_shift = _decide_shift
+Engine._rooted_in_param = _rooted_in_param
+Engine.decide_panic = _decide_panic
